@@ -155,7 +155,7 @@ class Engine(object):
             self.zsynced = True
         for t in pc[len(zpc):]:
             self.solver.push()
-            self.solver.add(tm.to_z3(t))
+            self.solver.add(tm.assertion_of(t))
             zpc.append(t)
 
     def _query(self, extra):
@@ -163,7 +163,7 @@ class Engine(object):
         t = time.time()
         self._sync()
         self.solver.push()
-        self.solver.add(tm.to_z3(extra))
+        self.solver.add(tm.assertion_of(extra))
         r = self.solver.check()
         m = None
         if r == z3.sat:
